@@ -150,6 +150,31 @@ package storage
 //@   ensures [C11.add.chan] result != nil && fresh(result) && cap(result) == 1
 //@   modifies family(CH_len)
 
+// Notify: the event loop is told exactly this table and this revision (before-send); Len asks for
+// exactly this table over a private rendezvous channel; the constructor makes the four request
+// channels the loop selects on, all open, and a map that creates a heap per table on first use
+//@ func (*IndexNotificationQueue).Notify
+//@   requires q != nil && q.notif != nil && !chanClosed(q.notif)
+//@   before send assert [C11.notify.msg] sent.table == table && sent.revision == revision && sentTo == q.notif
+//@   modifies family(CH_len)
+//@ func (*IndexNotificationQueue).Len
+//@   maypanic
+//@   requires q != nil && q.len != nil && !chanClosed(q.len)
+//@   before send assert [C11.len.msg] sent.table == table && sent.waitCh != nil && fresh(sent.waitCh) && sentTo == q.len
+//@   modifies family(CH_len)
+//@ func (*IndexNotificationQueue).Close
+//@   requires q != nil && q.closed != nil && !chanClosed(q.closed)
+//@   ensures [C11.close] chanClosed(q.closed) && result == nil
+//@   modifies family(CH_closed)
+//@ import util "github.com/jamf/regatta/util"
+//@ func util.NewSyncMap[string,*heap.Heap[*storage.item]]
+//@   assumed
+//@   ensures result != nil && fresh(result)
+//@   modifies nothing
+//@ func NewNotificationQueue
+//@   ensures [C11.new.channels] result != nil && fresh(result) && result.add != nil && result.notif != nil && result.closed != nil && result.len != nil && result.items != nil && !chanClosed(result.add) && !chanClosed(result.notif) && !chanClosed(result.closed) && !chanClosed(result.len) && result.add != result.notif && cap(result.add) == 0 && cap(result.notif) == 0
+//@   modifies nothing
+
 // ---------------------------------------------------------------- streamed range answers (C09)
 
 //@ import regattapb "github.com/jamf/regatta/regattapb"
@@ -230,14 +255,14 @@ package storage
 //@   requires (forall j int :: 0 <= j && j < len(req.Success) ==> req.Success[j] != nil && opNonNilPayload(req.Success[j])) && (forall j int :: 0 <= j && j < len(req.Failure) ==> req.Failure[j] != nil && opNonNilPayload(req.Failure[j]))
 //@   ensures [C10.engine.txn.rev] err == nil && e.Manager.nh.nprop == old(e.Manager.nh.nprop) + 1 ==> resp != nil && resp.Header != nil && resp.Header.Revision == world.lastRev
 // (a read-only transaction's response comes from the state machine's lookup: its ownership is not established, hence the wide frame)
-//@   modifies family(G_any_nprop), family(G_any_nsync), family(G_any_nstale), family(G_any_lastReq), world.lastRev, family(G_any_rHas), family(G_any_rPair), allfields(regattapb.TxnResponse), allfields(regattapb.ResponseHeader)
+//@   modifies family(G_any_nprop), family(G_any_nsync), family(G_any_nstale), family(G_any_lastReq), family(G_any_lastAns), world.lastRev, family(G_any_rHas), family(G_any_rPair), allfields(regattapb.TxnResponse), allfields(regattapb.ResponseHeader)
 // Engine.Range: the consistency level asked for decides the read path; the answer's header is new
 //@ func (*Engine).Range
 //@   maypanic
 //@   results resp, err
 //@   requires e != nil && e.Manager != nil && e.Cluster != nil && e.Cluster.shardView != nil && req != nil && ctx != nil && e.Manager.store != nil && e.Manager.nh != nil
 //@   ensures [C10.engine.range.path] err == nil && req.Linearizable ==> e.Manager.nh.nsync == old(e.Manager.nh.nsync) + 1 && e.Manager.nh.nstale == old(e.Manager.nh.nstale)
-//@   modifies family(G_any_nsync), family(G_any_nstale), family(G_any_lastReq), family(G_any_rHas), family(G_any_rPair), allfields(regattapb.RangeResponse)
+//@   modifies family(G_any_nsync), family(G_any_nstale), family(G_any_lastReq), family(G_any_lastAns), family(G_any_rHas), family(G_any_rPair), allfields(regattapb.RangeResponse)
 
 // ---------------------------------------------------------------- constructor wiring (C06, C13/C14)
 
